@@ -18,7 +18,10 @@ import (
 	"gosym/interp"
 )
 
-const repoDir = "/repo"
+// repoDir is /repo for every registered command; -repo / -out exist only so that seeded changes can be
+// tried against a scratch worktree without touching /repo or the committed evidence.
+var repoDir = "/repo"
+var outDir = ""
 const modPath = "github.com/itchio/wharf"
 
 // Config is harness/<prop>/config.json.
@@ -81,8 +84,17 @@ func main() {
 	cpuprof := flag.String("cpuprofile", "", "write cpu profile")
 	nValidate := flag.Int("validate", 4, "number of concrete engine-vs-native differential runs")
 	maxSec := flag.Int("max-seconds", 0, "per-instance deadline override")
+	repoFlag := flag.String("repo", "/repo", "development only: source tree to check instead of /repo")
+	outFlag := flag.String("out", "", "development only: directory for evidence and replays instead of <verif>/evidence")
 	flag.Parse()
+	repoDir = *repoFlag
+	outDir = *outFlag
+	if outDir == "" {
+		outDir = filepath.Join(*verifDir, "evidence")
+	}
+	interp.RepoPrefix = repoDir + "/"
 	debug.SetGCPercent(800)
+	debug.SetMemoryLimit(20 << 30) // soft: the collector works harder instead of letting the heap reach 9x live
 	if *cpuprof != "" {
 		f, _ := os.Create(*cpuprof)
 		pprof.StartCPUProfile(f)
